@@ -23,7 +23,9 @@ RULE = ("every verifying chunk of the .mlir corpus (tests/ and docs/, all dialec
         "assembly formats and re-parsed in a fresh context; plus a systematic sweep of single-point "
         "variants: for the first instance of every custom-format op name in every chunk, add a "
         "discardable attribute, drop each attribute, drop each property, set each property with a "
-        "declared default to that default -- kept only if verify() accepts the variant. Oracle: canonical form of the re-parsed module equals the "
+        "declared default to that default; for the first instance of every (op name, operand count, "
+        "integer-array shape) with a variadic operand definition, duplicate / remove one operand with "
+        "the segment-size arrays following -- kept only if verify() accepts the variant. Oracle: canonical form of the re-parsed module equals the "
         "original's and the generic round-trip's (modulo default-valued properties / inherent attrs in "
         "the attr-dict). Failures are attributed per op name by printing only that op in custom form. "
         "Non-trivial: the module contains at least one op with a custom print.")
